@@ -83,6 +83,12 @@ type Config struct {
 	// fault at the granularity of one goroutine (loaded machine, GC pause).
 	StarvePermille int
 	StarveMax      time.Duration
+	// StallPermille is the probability with which a library goroutine arriving at a scheduling
+	// point (before a channel operation or select, after an unlock, before a socket write) is
+	// held there for up to StallMax of simulated time: preemption at an arbitrary point for a
+	// long time (the same "stalled node" fault as StarvePermille, but anywhere).
+	StallPermille int
+	StallMax      time.Duration
 	// PCTDepth > 0 switches the scheduler to probabilistic concurrency testing: every task gets
 	// a random priority when it is spawned, the enabled task with the highest priority runs, and
 	// at PCTDepth randomly chosen steps the running task is demoted below all others. Good at
@@ -149,6 +155,7 @@ type Stats struct {
 	TimerTies    int // steps at which >= 2 events were due at the same instant
 	TimerLate    int
 	Starved      int
+	Stalled      int
 	ClockJumps   int
 	TasksSpawned int
 	LibTasks     int
@@ -605,11 +612,38 @@ func Pre(site string) *Task {
 	if t == nil {
 		return nil
 	}
+	s.maybeStall(t)
 	s.park(t, site)
 	s.mu.Lock()
 	t.inOp = true
 	s.mu.Unlock()
 	return t
+}
+
+// maybeStall holds a library task back at a scheduling point (fault: stalled goroutine).
+func (s *Sim) maybeStall(t *Task) {
+	if !t.Lib || s.aborting.Load() {
+		return
+	}
+	s.mu.Lock()
+	if s.cfg.StallPermille <= 0 || s.cfg.StallMax <= 0 || !s.Dec.Chance("stall", s.cfg.StallPermille) {
+		s.mu.Unlock()
+		return
+	}
+	d := time.Duration(1+s.Dec.Choose("stallamt", 16)) * s.cfg.StallMax / 16
+	t.blocked = "stalled"
+	s.Stats.Stalled++
+	s.lateTotal += d
+	s.logLocked("stall T%d %v", t.ID, d)
+	s.atLocked(d, fmt.Sprintf("unstall T%d", t.ID), false, func() {
+		s.mu.Lock()
+		if t.blocked == "stalled" {
+			t.blocked = nil
+		}
+		s.mu.Unlock()
+	})
+	s.mu.Unlock()
+	s.park(t, "stalled")
 }
 
 // Post is the scheduling point behind a (possibly blocking) channel operation. A goroutine
